@@ -32,6 +32,11 @@ VERIF = os.path.dirname(os.path.dirname(os.path.abspath(__file__)))
 COQ = os.path.join(VERIF, "coq")
 CACHE = os.path.join(VERIF, ".cache")
 REPO = os.environ.get("VERIF_REPO", "/repo")
+#: where evidence / replays / generated case files go.  Default: /verif itself.  A
+#: different directory is used only for trial runs against scratch worktrees (mutation
+#: testing), so that they do not disturb the registered checks' outputs.
+OUT = os.environ.get("VERIF_OUT", VERIF)
+GEN = os.path.join(OUT, ".cache", "gen") if OUT != VERIF else os.path.join(CACHE, "gen")
 
 FORBIDDEN = re.compile(
     r"\b(Admitted|admit|Axiom|Axioms|Parameter|Parameters|Conjecture|Abort All)\b"
@@ -190,6 +195,26 @@ def strip_coq_comments(txt: str) -> str:
     return "".join(out)
 
 
+def closure(props_file):
+    """The .v files of this project that ``props_file`` transitively requires."""
+    seen, todo = [], [props_file]
+    while todo:
+        f = todo.pop()
+        if f in seen or not os.path.exists(f):
+            continue
+        seen.append(f)
+        txt = strip_coq_comments(open(f).read())
+        for m in re.finditer(r"From\s+PP\s+Require\s+(?:Import\s+|Export\s+)?(.*?)\.(?=\s|$)",
+                             txt, flags=re.S):
+            for name in m.group(1).split():
+                todo.append(os.path.join(COQ, *name.split(".")) + ".v")
+        for m in re.finditer(r"Require\s+(?:Import\s+|Export\s+)?(.*?)\.(?=\s|$)", txt, flags=re.S):
+            for name in m.group(1).split():
+                if name.startswith("PP."):
+                    todo.append(os.path.join(COQ, *name.split(".")[1:]) + ".v")
+    return seen
+
+
 def theorem_names(props_file):
     txt = strip_coq_comments(open(props_file).read())
     return re.findall(r"^\s*Theorem\s+([A-Za-z0-9_']+)", txt, flags=re.M)
@@ -212,7 +237,8 @@ def check_proofs(pid, props_rel, extra_targets=(), tier="quick"):
         "checker_cmd": f"make -C coq {props_rel}o && coqc -Q coq PP coq/{props_rel}"
         + " (Print Assumptions under every theorem)",
     }
-    bad = gate_grep()
+    bad = gate_grep(closure(props_file))
+    res["closure"] = [os.path.relpath(f, COQ) for f in closure(props_file)]
     if bad:
         res["log"] = "forbidden constructs: " + "; ".join(bad)
         return res
@@ -223,7 +249,7 @@ def check_proofs(pid, props_rel, extra_targets=(), tier="quick"):
         res["log"] = "make failed:\n" + log[-4000:]
     # Re-run coqc on the Props file alone to get the Print Assumptions output, also
     # when make failed (to count how many theorems still check).
-    outdir = os.path.join(CACHE, "props")
+    outdir = os.path.join(os.path.dirname(GEN), "props")
     os.makedirs(outdir, exist_ok=True)
     rc2, out, err, dt2 = sh(
         [
@@ -277,7 +303,7 @@ def run_coqchk(pid, props_rel):
 def coq_eval_bools(pid, preamble, terms, shard=400, timeout=900, jobs=8):
     """Evaluate boolean Coq terms by vm_compute; returns list[bool|None] (None = coqc
     error for the shard) and a log."""
-    gdir = os.path.join(CACHE, "gen", pid)
+    gdir = os.path.join(GEN, pid)
     os.makedirs(gdir, exist_ok=True)
     for f in glob.glob(os.path.join(gdir, "cases_*")):
         os.remove(f)
@@ -327,7 +353,7 @@ def coq_eval_bools(pid, preamble, terms, shard=400, timeout=900, jobs=8):
 
 def coq_eval_raw(pid, preamble, terms, timeout=300):
     """Evaluate arbitrary terms and return the raw printed text (diagnostics only)."""
-    gdir = os.path.join(CACHE, "gen", pid)
+    gdir = os.path.join(GEN, pid)
     os.makedirs(gdir, exist_ok=True)
     fn = os.path.join(gdir, "diag.v")
     with open(fn, "w") as f:
@@ -426,17 +452,19 @@ def load_corpus(pid):
 
 
 def load_known():
-    f = os.path.join(VERIF, "known_findings.json")
-    if not os.path.exists(f):
-        return []
-    return json.load(open(f)).get("findings", [])
+    """Known findings: one committed file per property under /verif/known_findings/
+    (merged into /verif/known_findings.json by harness/mkmanifest.py)."""
+    out = []
+    for f in sorted(glob.glob(os.path.join(VERIF, "known_findings", "*.json"))):
+        out += json.load(open(f)).get("findings", [])
+    return out
 
 
 def write_replay(pid, kind, payload):
-    os.makedirs(os.path.join(VERIF, "replays"), exist_ok=True)
+    os.makedirs(os.path.join(OUT, "replays"), exist_ok=True)
     blob = json.dumps(payload, sort_keys=True, default=str)
     h = hashlib.sha1(blob.encode()).hexdigest()[:10]
-    path = os.path.join(VERIF, "replays", f"{pid}-{kind}-{h}.json")
+    path = os.path.join(OUT, "replays", f"{pid}-{kind}-{h}.json")
     with open(path, "w") as f:
         json.dump(payload, f, indent=1, sort_keys=True, default=str)
     return path
@@ -655,8 +683,8 @@ def run_check(prop: Prop, tier: str, seed: int, replay: str | None = None):
         "coverage": coverage, "assumptions": list(prop.assumptions),
         "wall_s": round(time.time() - t0, 2), "violations": len(violations),
     }
-    os.makedirs(os.path.join(VERIF, "evidence"), exist_ok=True)
-    with open(os.path.join(VERIF, "evidence", pid + ".json"), "w") as f:
+    os.makedirs(os.path.join(OUT, "evidence"), exist_ok=True)
+    with open(os.path.join(OUT, "evidence", pid + ".json"), "w") as f:
         json.dump(ev, f, indent=1, default=str)
 
     for key, (i, why) in sorted(known_hits.items()):
